@@ -1,26 +1,45 @@
 #!/venv/bin/python
-"""Apply a behaviour-preserving refactoring patch to /repo, run every claimed quick check, undo the patch.
-Every check must stay quiet (exit 0).  benign.py <patch.diff> [tier]"""
-import json, os, subprocess, sys, time
+"""Apply a behaviour-preserving refactoring patch to a PRIVATE export of /repo's HEAD, run every claimed quick check
+against it (private Lean project copy, private output directory), several checks at a time.
+Every check must stay quiet (exit 0).  benign.py <patch.diff> [tier] [-j N]"""
+import json, os, shutil, subprocess, sys, tempfile, time
+from concurrent.futures import ThreadPoolExecutor
+import queue
 V = os.path.dirname(os.path.dirname(os.path.abspath(__file__)))
 patch = os.path.abspath(sys.argv[1])
-tier = sys.argv[2] if len(sys.argv) > 2 else "quick"
-st = subprocess.run(["git", "-C", "/repo", "status", "--porcelain"], capture_output=True, text=True).stdout
-if st.strip():
-    print("refusing: /repo not clean"); sys.exit(2)
-subprocess.run(["git", "-C", "/repo", "apply", patch], check=True)
-bad = []
-try:
-    man = json.load(open(os.path.join(V, "MANIFEST.json")))
-    for c in man["checks"]:
-        pid = c["property_id"]
+tier = sys.argv[2] if len(sys.argv) > 2 and not sys.argv[2].startswith("-") else "quick"
+J = int(sys.argv[sys.argv.index("-j") + 1]) if "-j" in sys.argv else 5
+base = tempfile.mkdtemp(prefix="verif_benign_")
+repo = os.path.join(base, "repo")
+os.makedirs(repo)
+ar = subprocess.run(["git", "-C", "/repo", "archive", "HEAD"], capture_output=True, check=True)
+subprocess.run(["tar", "-x", "-C", repo], input=ar.stdout, check=True)
+subprocess.run(["git", "init", "-q"], cwd=repo, check=True)
+subprocess.run(["git", "apply", patch], cwd=repo, check=True)
+slots = queue.Queue()
+for k in range(J):
+    lean = os.path.join(base, "lean%d" % k)
+    shutil.copytree(os.path.join(V, "lean"), lean, symlinks=True)
+    slots.put(lean)
+
+
+def run(pid):
+    lean = slots.get()
+    try:
         t0 = time.time()
-        p = subprocess.run([os.path.join(V, "check"), pid, "--tier", tier], cwd=V, capture_output=True, text=True)
+        env = dict(os.environ, VERIF_REPO=repo, VERIF_LEAN_DIR=lean, PYTHONPATH=repo, VERIF_OUT_DIR=os.path.join(base, "out"))
+        p = subprocess.run([os.path.join(V, "check"), pid, "--tier", tier], cwd=V, capture_output=True, text=True, env=env)
         last = [l for l in p.stdout.splitlines() if l.startswith(("VIOLATION", "  proof", "  corr", "  failing"))][:3]
         print(pid, p.returncode, "%.0fs" % (time.time() - t0), last if p.returncode else "", flush=True)
-        if p.returncode != 0:
-            bad.append(pid)
-finally:
-    subprocess.run(["git", "-C", "/repo", "checkout", "--", "."], check=True)
+        return pid, p.returncode
+    finally:
+        slots.put(lean)
+
+
+man = json.load(open(os.path.join(V, "MANIFEST.json")))
+with ThreadPoolExecutor(J) as ex:
+    res = list(ex.map(run, [c["property_id"] for c in man["checks"]]))
+shutil.rmtree(base, ignore_errors=True)
+bad = [p for p, rc in res if rc != 0]
 print("alarms on a benign change:", bad)
 sys.exit(1 if bad else 0)
